@@ -83,6 +83,14 @@ MUST_FIRE = [
     ("gsx-reference-set-over-candidates", ["C08"], ["R8.6"], P + "pool/_greedy_sampling.py",
      '        sample_indices = np.arange(len(X), dtype=int)\n        selected_indices = labeled_indices(y, missing_label=self.missing_label)\n\n        if mapping is None:\n            X_all = np.append(X, X_cand, axis=0)\n            candidate_indices = len(X) + np.arange(len(X_cand), dtype=int)\n        else:\n            X_all = X\n            candidate_indices = mapping\n',
      '        selected_indices = labeled_indices(y, missing_label=self.missing_label)\n\n        if mapping is None:\n            X_all = np.append(X, X_cand, axis=0)\n            candidate_indices = len(X) + np.arange(len(X_cand), dtype=int)\n        else:\n            X_all = X\n            candidate_indices = mapping\n        sample_indices = np.arange(len(X_all), dtype=int)\n'),
+    ("voi-error-over-candidates", ["C08"], ["R8.5"], P + "pool/_expected_error_reduction.py",
+     "        idx_unlabeled = idx_train[\n            is_unlabeled(y_eval, missing_label=self.missing_label_)\n        ]\n",
+     "        idx_unlabeled = idx_cand\n"),
+    ("skl-label-counts-raw-classes", ["C09"], ["R9.5"], P + "classifier/_wrapper.py",
+     "np.sum(y[is_lbld] == c) for c in range(len(self._le.classes_))", "np.sum(y[is_lbld] == c) for c in self._le.classes_"),
+    ("icw-restore-weights-not-from-base", ["C19"], ["R19.5"], P + "pool/utils.py",
+     "                self.sample_weight_ = self._copy_sw(self.base_sample_weight_)\n\n            if self.enforce_unique_samples:",
+     "                self.sample_weight_ = self._copy_sw(\n                    self._get_sw(self.sample_weight, idx=self.idx_)\n                )\n\n            if self.enforce_unique_samples:"),
     # ---- C03
     ("split-set-state-deleted", ["C03"], ["R3"], BZ,
      "        self.random_state_.set_state(random_state_state)\n", "        pass\n"),
